@@ -12,7 +12,10 @@ CONSTANTS Statuses          \* set of HTTP status codes explored
 Parse   == {"empty", "nonjson", "badutf8", "json"}
 Top     == {"object", "array", "number", "string", "null", "bool"}
 DataK   == {"absent", "null", "object"}
-ErrK    == {"absent", "empty", "one", "two"}
+ErrK    == {"absent", "empty", "one", "two", "two_same", "three_mixed"}
+  \* two_same: two errors with the SAME message (differing in path / locations / extensions when the detail is full,
+  \* plainly repeated when it is message-only); three_mixed: first and third share the message.  The multi-error carries
+  \* every reported error, repeated or not.
 Detail  == {"msg", "full"}            \* error objects: message only / message+locations+path+extensions
 
 Bodies ==
@@ -25,7 +28,7 @@ Bodies ==
 Responses == [status : Statuses, body : Bodies]
 
 IsSuccess(s) == s >= 200 /\ s <= 299
-NErrors(b) == CASE b.errors = "one" -> 1 [] b.errors = "two" -> 2 [] OTHER -> 0
+NErrors(b) == CASE b.errors = "one" -> 1 [] b.errors \in {"two", "two_same"} -> 2 [] b.errors = "three_mixed" -> 3 [] OTHER -> 0
 
 \* ---- the documented classification (declarative; taken from the property statement) ---
 Documented(r) ==
